@@ -410,7 +410,7 @@ func main() {
 		nSmall, nMed, nUnr, nRe, nConc, batch = 600, 500, 300, 600, 600, 60
 	}
 	rrng := hlib.NewRng(opts.Seed ^ 0x5eed04) // own stream: the older streams keep their histories
-	for i := 0; i < nRe; i++ {                 // small ones first
+	for i := 0; i < nRe; i++ {                // small ones first
 		seq = append(seq, Job{Type: "reexec", Kind: "reexec", Seed: rrng.U64(), Nops: rrng.Range(3, 9)})
 	}
 	for i := 0; i < nSmall; i++ {
